@@ -1,10 +1,10 @@
 (* C09 -- the mask tests of _isomorphism.pyx applied to the words written by the two encoders of isomorphism.py decide
-   exactly the comparison methods of C08 (Model.Query), inside the representable range stated by atom_ok / query_ok.
+   exactly the reference comparison methods (match_atom / qbond_match of Model.IsoBits), inside the representable range stated by atom_ok / query_ok.
    Method: a word is the union of fields with disjoint supports (sub_split), every field is either one-hot against a
    fold of `v |= 1 << f(x)` (generic list lemma, any tuple length) or has a small finite domain (complete sweep by
    vm_compute lifted with forallb_forall). *)
 From Coq Require Import ZArith List Bool Lia.
-From Model Require Import PyBase PeriodicTable Query IsoBits.
+From Model Require Import PyBase PeriodicTable IsoBits.
 From Gen Require Import Elements.
 Import ListNotations.
 Open Scope Z_scope.
@@ -374,11 +374,11 @@ Proof.
   destruct (la_h a) as [h|] eqn:Eh; [|discriminate]. range_hyps.
   rewrite (sub_bit _ (la_chg a + 39)), bit_testbit by lia.
   rewrite (sub_tf (fun h => h + 30) 30 hfull (x_h x) h 0 4);
-    [|reflexivity | exact X2 | lia | lia | apply hfull_bits; lia].
+    [|reflexivity | assumption | lia | lia | apply hfull_bits; lia].
   rewrite (sub_tf (fun n => n) 0 hetfull (x_het x) (la_het a) 0 14);
-    [|intros; lia | exact X1 | lia | lia | apply hetfull_bits; lia].
+    [|intros; lia | assumption | lia | lia | apply hetfull_bits; lia].
   rewrite (sub_tf (fun n => n + 15) 15 nbfull (x_nb x) (la_nb a) 0 14);
-    [|reflexivity | exact X4 | lia | lia | apply nbfull_bits; lia].
+    [|reflexivity | assumption | lia | lia | apply nbfull_bits; lia].
   unfold x3_ref, tup. rewrite Eh. cbn [opt_mem].
   rewrite eqb_shift.
   destruct (Bool.eqb (x_rad x) (la_rad a)), (x_chg x =? la_chg a), (match qo with None => true | Some _ => _ end);
@@ -393,8 +393,14 @@ Proof.
   { pose proof Ha as Ha'. unfold atom_ok in Ha'. repeat (apply andb_true_iff in Ha'; let H := fresh "A" in destruct Ha' as [Ha' H]).
     apply off_of_In. assumption. }
   destruct (iso_field None (off_of (la_iso a) (la_num a)) false (la_rad a)) as [_ [_ Wa]]; [apply opts_In; exact I | exact Hao|].
-  rewrite sub_q3; auto; try (apply W; [lia|lia|vm_compute; reflexivity]).
-  2:{ apply (tf_within _ 15 _ _ _ _ 0 14); try lia; auto. apply W; [lia|lia|vm_compute; reflexivity]. }
+  assert (W1 : within 44 63 0xfffff00000000000) by (apply W; [lia|lia|vm_compute; reflexivity]).
+  assert (W2 : within 35 43 0xff800000000) by (apply W; [lia|lia|vm_compute; reflexivity]).
+  assert (W3 : within 30 34 hfull) by (apply W; [lia|lia|vm_compute; reflexivity]).
+  assert (W4 : within 0 14 hetfull) by (apply W; [lia|lia|vm_compute; reflexivity]).
+  assert (W5f : within 15 29 nbfull) by (apply W; [lia|lia|vm_compute; reflexivity]).
+  assert (W5 : within 15 29 (tf (fun n => n + 15) nbfull nb)).
+  { apply (tf_within _ 15 _ _ _ _ 0 14); try lia; auto. }
+  rewrite (sub_q3 _ _ _ _ _ a Ha W1 W2 W3 W4 W5).
   pose proof Ha as Ha'. unfold atom_ok in Ha'. repeat (apply andb_true_iff in Ha'; let H := fresh "A" in destruct Ha' as [Ha' H]).
   destruct (la_h a) as [h|] eqn:Eh; [|discriminate]. range_hyps.
   rewrite (sub_tf (fun n => n + 15) 15 nbfull nb (la_nb a) 0 14);
@@ -498,8 +504,9 @@ Lemma supports n : 1 <= n <= 118 ->
   within 0 56 (fst (elem_masks n)) /\ within 4 63 (snd (elem_masks n)) /\ within 4 63 (b2e n) /\ 0 <= pos1 n <= 56.
 Proof.
   intros H. pose proof supports_sweep as S. rewrite forallb_forall in S. specialize (S n (proj2 (in_r118 n) H)).
-  repeat (apply andb_true_iff in S; let H := fresh "S" in destruct S as [S H]). range_hyps.
-  repeat split; try (apply W; [lia|lia|assumption]); lia.
+  apply andb_true_iff in S. destruct S as [S S4]. apply andb_true_iff in S. destruct S as [S S3].
+  apply andb_true_iff in S. destruct S as [S1 S2]. range_hyps.
+  split; [apply W; [lia|lia|exact S1]|]. split; [apply W; [lia|lia|exact S2]|]. split; [apply W; [lia|lia|exact S3]|]. lia.
 Qed.
 
 Lemma elem_test_elem n an : 1 <= n <= 116 -> 1 <= an <= 116 -> elem_test (elem_masks n) an = (n =? an).
@@ -559,7 +566,7 @@ Proof.
     + intros [_ [n [Hn T]]]. destruct (F n Hn) as [_ F2]. rewrite (F2 eq_refl) in T. apply andb_true_iff in T.
       destruct T as [_ T]. apply Z.eqb_eq in T. subst. exists an. split; [exact Hn | apply Z.eqb_refl].
     + intros [n [Hn E]]. apply Z.eqb_eq in E. subst n. destruct (F an Hn) as [F1 F2]. split; exists an; (split; [exact Hn|]).
-      * rewrite F1. reflexivity.
+      * rewrite F1. exact Eh.
       * rewrite (F2 eq_refl), Eh, Z.eqb_refl. reflexivity.
   - rewrite sub_0, andb_true_r. unfold zmem. apply eq_true_iff_eq. rewrite !existsb_exists.
     split; intros [n [Hn T]]; exists n; (split; [exact Hn|]).
@@ -581,16 +588,6 @@ Definition elem_ref (q : qatom) (an : Z) : bool :=
   | QList nums _ => zmem an nums
   | QMetal _ _ => negb (non_metal an)
   end.
-(* hypotheses on the element part: 1..116 on both sides; for AnyMetal the atom is not Rn (finding anymetal-rn-mask) *)
-Definition elem_hyp (q : qatom) (an : Z) : Prop :=
-  1 <= an <= 116 /\
-  match q with
-  | QElem n _ _ => 1 <= n <= 116
-  | QAny _ => True
-  | QList nums _ => all_in 1 116 nums = true
-  | QMetal _ _ => an <> 86
-  end.
-
 Lemma elem_test_q q an : elem_hyp q an -> elem_test (qm q) an = elem_ref q an.
 Proof.
   intros [Ha Hq]. destruct q as [n iso x|x|nums x|nb hyb]; unfold qm, elem_ref.
@@ -684,6 +681,17 @@ Proof.
   apply G. lia.
 Qed.
 
+Lemma disjoint_false a b : disjoint_z a b = false <-> exists v, In v b /\ In v a.
+Proof.
+  unfold disjoint_z. induction a as [|y l IH]; cbn [forallb].
+  - split; [discriminate | intros [v [_ []]]].
+  - destruct (zmem y b) eqn:M; cbn [negb andb].
+    + split; [intros _; exists y; split; [apply zmem_In; exact M | left; reflexivity] | reflexivity].
+    + rewrite IH. split; intros [v [H1 H2]]; exists v; (split; [exact H1|]).
+      * right; exact H2.
+      * destruct H2 as [->|H2]; [apply zmem_In in H1; congruence | exact H2].
+Qed.
+
 Lemma meet_w4 x a : qx_ok x = true -> atom_ok a = true -> meet (enc_x4 x) (w4 (enc_atom a)) = ring_ref x a.
 Proof.
   intros Hx Ha. rewrite (enc_atom_w4 a Ha).
@@ -693,7 +701,8 @@ Proof.
   - (* unconstrained *)
     destruct (la_rings a) as [|s0 s] eqn:Es.
     + rewrite meet_bit by lia. apply allones_bits. lia.
-    + apply (meet_iff _ _ ltac:(vm_compute; discriminate)). exists (65 - s0).
+    + assert (N0 : 0 <= allones) by (vm_compute; discriminate).
+      apply (meet_iff allones _ N0). exists (65 - s0).
       pose proof (all_in_In _ _ _ s0 A ltac:(left; reflexivity)).
       split; [lia|]. split; [apply allones_bits; lia|]. rewrite rings_testbit by exact A. cbn [existsb].
       rewrite Z.eqb_refl. reflexivity.
@@ -711,19 +720,7 @@ Proof.
         apply not_true_is_false. intros T. apply existsb_exists in T.
         destruct T as [y [Hy E]]. apply Z.eqb_eq in E. pose proof (all_in_In _ _ _ _ X Hy). lia.
       * apply eq_true_iff_eq. rewrite (meet_iff _ _ (or_bits_nonneg _ _)). rewrite negb_true_iff.
-        assert (D : disjoint_z (s0 :: s) (r0 :: r) = false <-> exists v, In v (r0 :: r) /\ In v (s0 :: s)).
-        { unfold disjoint_z. split.
-          - intros H. destruct (forallb (fun x0 => negb (zmem x0 (r0 :: r))) (s0 :: s)) eqn:F; [discriminate|].
-            assert (N : ~ (forall y, In y (s0 :: s) -> negb (zmem y (r0 :: r)) = true)) by (rewrite <- forallb_forall, F; discriminate).
-            clear F H. induction (s0 :: s) as [|y l IH].
-            + exfalso. apply N. intros y [].
-            + destruct (zmem y (r0 :: r)) eqn:M.
-              * apply zmem_In in M. exists y. split; [exact M | left; reflexivity].
-              * destruct IH as [v [H1 H2]].
-                { intros H. apply N. intros z [->|Hz]; [rewrite M; reflexivity | apply H; exact Hz]. }
-                exists v. split; [exact H1 | right; exact H2].
-          - intros [v [H1 H2]]. apply not_true_is_false. intros F. rewrite forallb_forall in F. specialize (F v H2).
-            apply negb_true_iff in F. apply zmem_In in H1. congruence. }
+        pose proof (disjoint_false (s0 :: s) (r0 :: r)) as D.
         rewrite D. split.
         -- intros [p [Hp [T1 T2]]]. rewrite rings_testbit in T1 by exact X. rewrite rings_testbit in T2 by exact A.
            apply existsb_exists in T1, T2. destruct T1 as [u [Hu E1]]. destruct T2 as [v [Hv E2]].
@@ -810,48 +807,38 @@ Definition ref_match (q : qatom) (a : latom) : bool :=
   | QMetal nb hyb => negb (non_metal (la_num a)) && tup nb (la_nb a) && tup hyb (la_hyb a)
   end.
 
-Definition q_set (q : qatom) : bool :=
-  match q with QElem _ _ x | QAny x | QList _ x => x_rings_set x | QMetal _ _ => false end.
-
-Lemma match_tail_ref x a : x_rings_set x = false ->
-  match_tail x a = Ok (tup (x_nb x) (la_nb a) && tup (x_hyb x) (la_hyb a) && ring_ref x a &&
-                      negb (nonempty (x_h x) && negb (opt_mem (la_h a) (x_h x))) && tup (x_het x) (la_het a)).
+Lemma match_tail_ref x a :
+  match_tail x a = tup (x_nb x) (la_nb a) && tup (x_hyb x) (la_hyb a) && ring_ref x a &&
+                   negb (nonempty (x_h x) && negb (opt_mem (la_h a) (x_h x))) && tup (x_het x) (la_het a).
 Proof.
-  intros Hs. unfold match_tail, ring_step, ring_ref, tup. rewrite Hs.
+  unfold match_tail, tup. change (ring_step x a) with (ring_ref x a).
   destruct (nonempty (x_nb x) && negb (zmem (la_nb a) (x_nb x))); cbn [negb andb]; [reflexivity|].
   destruct (nonempty (x_hyb x) && negb (zmem (la_hyb a) (x_hyb x))); cbn [negb andb]; [reflexivity|].
-  destruct (x_rings x) as [|r0 r].
-  - destruct (nonempty (x_h x) && negb (opt_mem (la_h a) (x_h x))); cbn [negb andb]; [reflexivity|].
-    destruct (nonempty (x_het x) && negb (zmem (la_het a) (x_het x))); reflexivity.
-  - destruct (negb (r0 =? 0)).
-    + destruct (disjoint_z (la_rings a) (r0 :: r)); cbn [negb andb]; [reflexivity|].
-      destruct (nonempty (x_h x) && negb (opt_mem (la_h a) (x_h x))); cbn [negb andb]; [reflexivity|].
-      destruct (nonempty (x_het x) && negb (zmem (la_het a) (x_het x))); reflexivity.
-    + destruct (nonempty (la_rings a)); cbn [negb andb]; [reflexivity|].
-      destruct (nonempty (x_h x) && negb (opt_mem (la_h a) (x_h x))); cbn [negb andb]; [reflexivity|].
-      destruct (nonempty (x_het x) && negb (zmem (la_het a) (x_het x))); reflexivity.
+  destruct (ring_ref x a); cbn [negb andb]; [|reflexivity].
+  destruct (nonempty (x_h x) && negb (opt_mem (la_h a) (x_h x))); cbn [negb andb]; [reflexivity|].
+  destruct (nonempty (x_het x) && negb (zmem (la_het a) (x_het x))); reflexivity.
 Qed.
 
-Lemma match_atom_ref q a : q_set q = false -> match_atom q a = Ok (ref_match q a).
+Lemma match_atom_ref q a : match_atom q a = ref_match q a.
 Proof.
-  intros Hs. destruct q as [n iso x|x|nums x|nb hyb]; cbn [q_set] in Hs; unfold match_atom, ref_match.
-  - unfold match_q. rewrite (match_tail_ref x a Hs). unfold x3_ref, iso_ref.
+  destruct q as [n iso x|x|nums x|nb hyb]; unfold match_atom, ref_match.
+  - unfold match_q. rewrite (match_tail_ref x a). unfold x3_ref, iso_ref.
     destruct (n =? la_num a); cbn [negb andb]; [|reflexivity].
     destruct (x_chg x =? la_chg a); cbn [negb andb]; [|rewrite !andb_false_r; reflexivity].
     destruct (Bool.eqb (x_rad x) (la_rad a)); cbn [negb andb]; [|rewrite !andb_false_r; reflexivity].
     destruct (iso_truthy iso && negb (option_eqb Z.eqb iso (la_iso a))); cbn [negb andb]; [reflexivity|].
-    f_equal. destruct (tup (x_nb x) (la_nb a)), (tup (x_hyb x) (la_hyb a)), (ring_ref x a), (tup (x_het x) (la_het a)),
+    destruct (tup (x_nb x) (la_nb a)), (tup (x_hyb x) (la_hyb a)), (ring_ref x a), (tup (x_het x) (la_het a)),
       (negb (nonempty (x_h x) && negb (opt_mem (la_h a) (x_h x)))); reflexivity.
-  - unfold match_any. rewrite (match_tail_ref x a Hs). unfold x3_ref.
+  - unfold match_any. rewrite (match_tail_ref x a). unfold x3_ref.
     destruct (x_chg x =? la_chg a); cbn [negb andb]; [|rewrite !andb_false_r; reflexivity].
     destruct (Bool.eqb (x_rad x) (la_rad a)); cbn [negb andb]; [|reflexivity].
-    f_equal. destruct (tup (x_nb x) (la_nb a)), (tup (x_hyb x) (la_hyb a)), (ring_ref x a), (tup (x_het x) (la_het a)),
+    destruct (tup (x_nb x) (la_nb a)), (tup (x_hyb x) (la_hyb a)), (ring_ref x a), (tup (x_het x) (la_het a)),
       (negb (nonempty (x_h x) && negb (opt_mem (la_h a) (x_h x)))); reflexivity.
-  - unfold match_list. rewrite (match_tail_ref x a Hs). unfold x3_ref.
+  - unfold match_list. rewrite (match_tail_ref x a). unfold x3_ref.
     destruct (zmem (la_num a) nums); cbn [negb andb]; [|reflexivity].
     destruct (x_chg x =? la_chg a); cbn [negb andb]; [|rewrite !andb_false_r; reflexivity].
     destruct (Bool.eqb (x_rad x) (la_rad a)); cbn [negb andb]; [|reflexivity].
-    f_equal. destruct (tup (x_nb x) (la_nb a)), (tup (x_hyb x) (la_hyb a)), (ring_ref x a), (tup (x_het x) (la_het a)),
+    destruct (tup (x_nb x) (la_nb a)), (tup (x_hyb x) (la_hyb a)), (ring_ref x a), (tup (x_het x) (la_het a)),
       (negb (nonempty (x_h x) && negb (opt_mem (la_h a) (x_h x)))); reflexivity.
   - unfold match_metal, tup. destruct (non_metal (la_num a)); cbn [negb andb]; [reflexivity|].
     destruct (nonempty nb && negb (zmem (la_nb a) nb)); cbn [negb andb]; [reflexivity|].
@@ -879,7 +866,12 @@ Proof.
 Qed.
 
 Definition q_x (q : qatom) : qx :=
-  match q with QElem _ _ x | QAny x | QList _ x => x | QMetal nb hyb => mkQX 0 false nb hyb [] [] [] false end.
+  match q with QElem _ _ x | QAny x | QList _ x => x | QMetal nb hyb => mkQX 0 false nb hyb [] [] [] end.
+
+Lemma qx_ok_parts x : qx_ok x = true ->
+  in_range (-4) 4 (x_chg x) = true /\ all_in 0 14 (x_nb x) = true /\ all_in 1 4 (x_hyb x) = true /\
+  all_in 0 4 (x_h x) = true /\ all_in 0 14 (x_het x) = true.
+Proof. unfold qx_ok. rewrite !andb_true_iff. tauto. Qed.
 
 (* words II, III, IV together (they are tested in the same way for the first and for the following atoms) *)
 Lemma words_234 q b a : query_ok q = true -> atom_ok a = true -> elem_hyp q (la_num a) ->
@@ -889,8 +881,11 @@ Lemma words_234 q b a : query_ok q = true -> atom_ok a = true -> elem_hyp q (la_
 Proof.
   intros Hq Ha He.
   assert (Hhyb : all_in 1 4 (q_hyb q) = true).
-  { destruct q; cbn [query_ok q_hyb] in *; unfold qx_ok in *;
-    repeat (apply andb_true_iff in Hq; let H := fresh "Q" in destruct Hq as [Hq H]); assumption. }
+  { destruct q as [n iso x|x|nums x|nb hyb]; cbn [query_ok q_hyb] in *.
+    - apply andb_true_iff in Hq. destruct Hq as [_ Hx]. apply qx_ok_parts in Hx. tauto.
+    - apply qx_ok_parts in Hq. tauto.
+    - apply andb_true_iff in Hq. destruct Hq as [_ Hx]. apply qx_ok_parts in Hx. tauto.
+    - apply andb_true_iff in Hq. tauto. }
   rewrite (sub_w2 q b a He Hhyb Ha), enc_q_w3, enc_atom_w3, q_w4.
   rewrite (andb_assoc (Z.testbit _ _)), (andb_assoc (Z.testbit _ _)), (andb_assoc (Z.testbit _ _)).
   fold (elem_test (qm q) (la_num a)). rewrite (elem_test_q q _ He).
@@ -907,23 +902,17 @@ Proof.
     destruct (zmem (la_num a) nums), (x3_ref x a), (tup (x_hyb x) (la_hyb a)), (ring_ref x a); reflexivity.
   - apply andb_true_iff in Hq. destruct Hq as [Hnb Hh].
     rewrite (sub_metal3 nb a Hnb Ha).
-    change allones with (enc_x4 (mkQX 0 false [] [] [] [] [] false)).
-    rewrite (meet_w4 _ a ltac:(reflexivity) Ha). unfold ring_ref. cbn [x_rings].
+    change allones with (enc_x4 (mkQX 0 false [] [] [] [] [])).
+    rewrite (meet_w4 (mkQX 0 false [] [] [] [] []) a eq_refl Ha). unfold ring_ref. cbn [x_rings].
     destruct (negb (non_metal (la_num a))), (tup nb (la_nb a)), (tup hyb (la_hyb a)); reflexivity.
-Qed.
-
-Lemma query_ok_not_set q : query_ok q = true -> q_set q = false.
-Proof.
-  destruct q as [n iso x|x|nums x|nb hyb]; cbn [query_ok q_set]; intros H; try reflexivity; unfold qx_ok in H;
-  repeat (apply andb_true_iff in H; let K := fresh "K" in destruct H as [H K]); apply negb_true_iff; assumption.
 Qed.
 
 (* THE FIRST ATOM OF A COMPONENT: the four mask tests decide QueryElement/AnyElement/ListElement/AnyMetal.__eq__ *)
 Theorem mask_match_first_correct q a :
   query_ok q = true -> atom_ok a = true -> elem_hyp q (la_num a) ->
-  match_atom q a = Ok (mask_match_first (enc_qatom q None) (enc_atom a)).
+  mask_match_first (enc_qatom q None) (enc_atom a) = match_atom q a.
 Proof.
-  intros Hq Ha He. rewrite (match_atom_ref q a (query_ok_not_set q Hq)). f_equal.
+  intros Hq Ha He. rewrite (match_atom_ref q a).
   rewrite <- (words_234 q None a Hq Ha He). unfold mask_match_first.
   fold (meet (w1 (enc_qatom q None)) (w1 (enc_atom a))) (sub (w2 (enc_qatom q None)) (w2 (enc_atom a)))
        (sub (w3 (enc_qatom q None)) (w3 (enc_atom a))) (meet (w4 (enc_qatom q None)) (w4 (enc_atom a))).
@@ -934,10 +923,9 @@ Qed.
 (* EVERY FOLLOWING ATOM: mask1 & bond == bond tests the bond to the `back` atom and the element at once *)
 Theorem mask_match_next_correct q qb a lb :
   query_ok q = true -> atom_ok a = true -> elem_hyp q (la_num a) -> qbond_ok qb = true -> bond_ok lb = true ->
-  match_atom q a = Ok (ref_match q a) /\
-  mask_match_next (enc_qatom q (Some qb)) (enc_bond lb (w1 (enc_atom a))) (enc_atom a) = qbond_match qb lb && ref_match q a.
+  mask_match_next (enc_qatom q (Some qb)) (enc_bond lb (w1 (enc_atom a))) (enc_atom a) = qbond_match qb lb && match_atom q a.
 Proof.
-  intros Hq Ha He Hqb Hlb. split; [apply match_atom_ref, query_ok_not_set, Hq|].
+  intros Hq Ha He Hqb Hlb. rewrite (match_atom_ref q a).
   rewrite <- (words_234 q (Some qb) a Hq Ha He). unfold mask_match_next.
   fold (sub (w1 (enc_qatom q (Some qb))) (enc_bond lb (w1 (enc_atom a)))) (sub (w2 (enc_qatom q (Some qb))) (w2 (enc_atom a)))
        (sub (w3 (enc_qatom q (Some qb))) (w3 (enc_atom a))) (meet (w4 (enc_qatom q (Some qb))) (w4 (enc_atom a))).
@@ -981,35 +969,63 @@ Proof.
   repeat split; reflexivity.
 Qed.
 
-(* ---- what is false on the unchanged tree ---- *)
-(* AnyMetal mask accepts radon although AnyMetal.__eq__ rejects noble gases (GroupXVIII) *)
+(* ---- the molecule side of the isotope hypothesis is a table fact: every isotope the Element setter accepts
+        (a key of isotopes_distribution) lies within mdl_isotope - 8 .. mdl_isotope + 8 ---- *)
+Lemma real_isotopes_sweep :
+  forallb (fun e => forallb (fun k => iso_off_ok (Some k) (e_num e)) (keys (e_dist e))) elements = true.
+Proof. vm_compute. reflexivity. Qed.
+Theorem atom_isotope_representable e i :
+  In e elements -> isotope_accepted e i = true -> iso_off_ok (Some i) (e_num e) = true.
+Proof.
+  intros He Hi. pose proof real_isotopes_sweep as S. rewrite forallb_forall in S. specialize (S e He).
+  rewrite forallb_forall in S. apply S. unfold isotope_accepted in Hi. apply zmem_In. exact Hi.
+Qed.
+
+(* ---- what is false on the unchanged tree: the hypotheses of the theorems above cannot be dropped ---- *)
+(* (a) AnyMetal: the mask constant accepts radon although AnyMetal.__eq__ rejects noble gases (GroupXVIII) *)
 Definition rn_atom : latom := mkLA 86 None 0 false 0 1 (Some 0) 0 [].
 Theorem anymetal_mask_refuted :
   query_ok (QMetal [] []) = true /\ atom_ok rn_atom = true /\
-  match_atom (QMetal [] []) rn_atom = Ok false /\
+  match_atom (QMetal [] []) rn_atom = false /\
   mask_match_first (enc_qatom (QMetal [] []) None) (enc_atom rn_atom) = true.
 Proof. vm_compute. repeat split; reflexivity. Qed.
 
-(* implicit_hydrogens = None (valence error) is encoded like 0: a query asking for h0 accepts it, __eq__ does not *)
+(* (b) implicit_hydrogens = None (valence error) is encoded like 0: a query asking for h0 accepts it, __eq__ does not *)
 Definition noh_atom : latom := mkLA 6 None 0 false 5 1 None 0 [].
-Definition h0_query : qatom := QElem 6 None (mkQX 0 false [] [] [0] [] [] false).
+Definition h0_query : qatom := QElem 6 None (mkQX 0 false [] [] [0] [] []).
 Theorem hydrogens_none_refuted :
-  query_ok h0_query = true /\ match_atom h0_query noh_atom = Ok false /\
+  query_ok h0_query = true /\ match_atom h0_query noh_atom = false /\
   mask_match_first (enc_qatom h0_query None) (enc_atom noh_atom) = true.
 Proof. vm_compute. repeat split; reflexivity. Qed.
 
-(* the setter accepts implicit_hydrogens up to 14 but the field has 5 bits: h = 5..13 alias the charge bits *)
+(* (c) the setter accepts implicit_hydrogens up to 14 but the field has 5 bits: h = 5..13 alias the charge bits *)
 Definition c4_atom : latom := mkLA 6 None (-4) false 0 1 (Some 0) 0 [].
-Definition h05_query : qatom := QElem 6 None (mkQX 0 false [] [] [0; 5] [] [] false).
+Definition h05_query : qatom := QElem 6 None (mkQX 0 false [] [] [0; 5] [] []).
 Theorem hydrogens_over_4_refuted :
-  atom_ok c4_atom = true /\ match_atom h05_query c4_atom = Ok false /\
+  atom_ok c4_atom = true /\ match_atom h05_query c4_atom = false /\
   mask_match_first (enc_qatom h05_query None) (enc_atom c4_atom) = true.
 Proof. vm_compute. repeat split; reflexivity. Qed.
 
-(* non-vacuity: a concrete instance inside the hypotheses on which both sides are true *)
+(* (d) a query isotope 9 above mdl_isotope lands on bit 63 = "isotope not specified": [21C] accepts plain carbon *)
+Definition c_atom : latom := mkLA 6 None 0 false 0 1 (Some 4) 0 [].
+Definition c21_query : qatom := QElem 6 (Some 21) (mkQX 0 false [] [] [] [] []).
+Theorem query_isotope_offset_refuted :
+  atom_ok c_atom = true /\ match_atom c21_query c_atom = false /\
+  mask_match_first (enc_qatom c21_query None) (enc_atom c_atom) = true.
+Proof. vm_compute. repeat split; reflexivity. Qed.
+
+(* ---- non-vacuity: concrete instances inside the hypotheses on which both sides are true / false ---- *)
 Theorem mask_match_example :
-  let q := QElem 6 (Some 13) (mkQX 0 false [2; 3] [1] [1; 2] [0] [5; 6] false) in
+  let q := QElem 6 (Some 13) (mkQX 0 false [2; 3] [1] [1; 2] [0] [5; 6]) in
   let a := mkLA 6 (Some 13) 0 false 3 1 (Some 1) 0 [6] in
-  query_ok q = true /\ atom_ok a = true /\ elem_hyp q (la_num a) /\
-  match_atom q a = Ok true /\ mask_match_first (enc_qatom q None) (enc_atom a) = true.
+  let a' := mkLA 6 (Some 13) 0 false 3 1 (Some 1) 0 [7] in
+  let qb := mkQB [1; 4] (Some true) in
+  query_ok q = true /\ atom_ok a = true /\ atom_ok a' = true /\ elem_hyp q (la_num a) /\ qbond_ok qb = true /\
+  bond_ok (mkLB 4 true) = true /\
+  match_atom q a = true /\ mask_match_first (enc_qatom q None) (enc_atom a) = true /\
+  match_atom q a' = false /\ mask_match_first (enc_qatom q None) (enc_atom a') = false /\
+  mask_match_next (enc_qatom q (Some qb)) (enc_bond (mkLB 4 true) (w1 (enc_atom a))) (enc_atom a) = true /\
+  mask_match_next (enc_qatom q (Some qb)) (enc_bond (mkLB 2 true) (w1 (enc_atom a))) (enc_atom a) = false /\
+  closure_ok (enc_closure qb) (enc_bond (mkLB 1 true) (w1 (enc_atom a))) = true /\
+  closure_ok (enc_closure qb) (enc_bond (mkLB 1 false) (w1 (enc_atom a))) = false.
 Proof. cbn zeta. repeat split; try (vm_compute; reflexivity); cbn; lia. Qed.
